@@ -13,6 +13,7 @@ import (
 	"fmt"
 	"net/netip"
 	"slices"
+	"sort"
 	"strings"
 	"testing"
 	"time"
@@ -121,6 +122,47 @@ func run(e *core.Env) {
 			set("loop-free-path-crossed-twice", "announcement %s crossed path %s twice", v.Instance[:40], key)
 		}
 		in.paths[key] = true
+	}
+
+	// Wave 15: a link of a router goes away while that router announces itself (its peer hung
+	// up): the router is in the middle of its walk over its links. The link is chosen so that
+	// the rest stays a connected honest mesh (a leaf, which is then left out of the judgement,
+	// or an edge on a cycle) and so that it is neither the first nor the last link of the
+	// walk. Every remaining router still has to learn about every other one in this round.
+	// Routes are not followed in these runs (routers that are not next to the lost link may
+	// keep a route over it until it expires; the statement is about the mesh as it is).
+	lostAt, lostPeer, linkLostWhileAnnouncing := -1, -1, false
+	if n >= 4 && !opts.LongStagger && tp.Chance(1, 5) {
+		type cand struct{ o, l int }
+		var cands []cand
+		for o := 0; o < n; o++ {
+			nb := append([]int(nil), ms.Adj[o]...)
+			sort.Slice(nb, func(a, b int) bool { return ms.Nodes[nb[a]].IP.Compare(ms.Nodes[nb[b]].IP) < 0 })
+			for k := 1; k+1 < len(nb); k++ {
+				l := nb[k]
+				if len(ms.Adj[l]) == 1 || connectedWithout(ms.Adj, o, l) {
+					cands = append(cands, cand{o, l})
+				}
+			}
+		}
+		if len(cands) > 0 {
+			c := cands[tp.Intn(len(cands))]
+			O, L := ms.Nodes[c.o], ms.Nodes[c.l]
+			lostAt, lostPeer = c.o, c.l
+			fired := false
+			ms.Net.BeforeSend = func(l *simnet.Link, f frame.Frame) {
+				if mt := f.MessageType(); fired || l.Local != O || (mt != frame.RouterHopPing && mt != frame.RouterHopPingDeprecated) || f.SrcIP() != O.IP {
+					return
+				}
+				fired = true
+				if lk, ok := O.Peering.GetLink(L.IP).(*simnet.Link); ok && lk != l {
+					lk.Close(nil)
+					linkLostWhileAnnouncing = true
+					e.Fault("link_lost_while_its_router_announces")
+					e.Logf("link %s-%s closed while %s announces (sending to %s)", O.Name, L.Name, O.Name, l.Remote.Name)
+				}
+			}
+		}
 	}
 
 	// Let the shipped announce workers fire (5 s after each start), then drain.
@@ -266,6 +308,36 @@ func run(e *core.Env) {
 			e.Probe("label_switched_probe_delivered")
 			ms.CheckPanics("worker-panic")
 		}
+	}
+	if linkLostWhileAnnouncing {
+		// "After each router has announced itself": the router that lost a link in the middle of
+		// its walk has handed its own announcement to every link it still has. (That every
+		// router then holds a route to every other one is not demanded here: a router keeps three
+		// routes per destination, all three may have led over the lost link, and the others are
+		// only learned again with the next round - the statement is about a mesh that stays as
+		// it is.)
+		O := ms.Nodes[lostAt]
+		for _, p := range ms.Adj[lostAt] {
+			if p == lostPeer {
+				continue
+			}
+			P := ms.Nodes[p]
+			if O.Peering.GetLink(P.IP) == nil {
+				continue
+			}
+			got := false
+			for _, in := range insts {
+				if in.origin == lostAt && in.paths[P.IP.String()] {
+					got = true
+				}
+			}
+			if !got {
+				e.Fail("router-did-not-announce-itself-to-a-live-peer/link-lost-while-it-announced", "%s mesh n=%d edges=%v: the link %s-%s went away while %s was announcing itself; %s never handed its announcement to its live link to %s in that round",
+					ms.Kind, n, ms.Edges, O.Name, ms.Nodes[lostPeer].Name, O.Name, O.Name, P.Name)
+			}
+		}
+		e.Probe("announcement_round_checked_after_a_link_was_lost_in_the_middle_of_it")
+		return
 	}
 	reach("")
 
@@ -487,6 +559,30 @@ func runFullStack(e *core.Env) {
 		}
 	}
 	e.Sample("full stack: %s mesh of %d real instances, %d connections", ms.Kind, n, len(ms.CN.Pairs()))
+}
+
+// connectedWithout reports whether the graph stays connected without the edge a-b.
+func connectedWithout(adj [][]int, a, b int) bool {
+	seen := make([]bool, len(adj))
+	stack := []int{0}
+	seen[0] = true
+	for len(stack) > 0 {
+		u := stack[len(stack)-1]
+		stack = stack[:len(stack)-1]
+		for _, v := range adj[u] {
+			if (u == a && v == b) || (u == b && v == a) || seen[v] {
+				continue
+			}
+			seen[v] = true
+			stack = append(stack, v)
+		}
+	}
+	for _, s := range seen {
+		if !s {
+			return false
+		}
+	}
+	return true
 }
 
 func hopNames(ms *mesh.Mesh, rte *m.RoutingTableEntry) []string {
